@@ -26,9 +26,18 @@ _LOCK = threading.Condition()
 _ARRIVED: dict = {}
 
 
+EXEC = {"n": 0}          # executions of enc / encs in THIS process (threads included) since reset()
+
+
 def reset():
     with _LOCK:
         _ARRIVED.clear()
+        EXEC["n"] = 0
+
+
+def _count():
+    with _LOCK:
+        EXEC["n"] += 1
 
 
 def _arrive(name: str):
@@ -92,6 +101,7 @@ def decode(code: int):
 
 
 def enc(detector, p0=0.0, p1=0.0, p2=0.0, nslots=1, sleep_scale=0.0, sleep_mult=1, slow_sum=None):
+    _count()
     vals = [p0, p1, p2][: int(nslots)]
     code, total = encode(vals)
     mem = getattr(detector, "_c07_mem", 0)
@@ -99,6 +109,64 @@ def enc(detector, p0=0.0, p1=0.0, p2=0.0, nslots=1, sleep_scale=0.0, sleep_mult=
     geo = detector.geometry
     detector.pixel.array = np.full((geo.row, geo.col), float(code))
     detector.signal.array = np.full((geo.row, geo.col), float(mem))
+    _aux(detector, float(code), total)
+    if sleep_scale:
+        if slow_sum is not None:
+            s = sleep_scale if total == int(slow_sum) else 0.0
+        else:
+            s = sleep_scale * ((int(sleep_mult) * total) % 5) / 4.0
+        time.sleep(s)
+
+
+def _aux(detector, code, total):
+    """the same code in one more bucket (photon), so that a result whose buckets are mixed up between runs or
+    between variables is visible"""
+    geo = detector.geometry
+    try:
+        detector.photon.array = np.full((geo.row, geo.col), float(code))
+    except Exception:  # noqa: BLE001  (a detector type without this bucket)
+        pass
+
+
+def encs(detector, ident=0, slots="", a=0.0, b=0.0, c=0.0, d=0.0, sleep_scale=0.0, sleep_mult=1, slow_sum=None):
+    """One of SEVERAL probe instances in a pipeline (parameters with the same short name live in different
+    model instances).  `slots` = "a:0,c:2": the value RECEIVED for argument `a` is written (as the injective
+    code of `encode([value])`) into pixel[0, 0], the one for `c` into pixel[0, 2]; the other columns are left
+    as they are.  signal[0, slot] = how many runs had executed THIS instance on the detector object before."""
+    _count()
+    got = dict(a=a, b=b, c=c, d=d)
+    geo = detector.geometry
+    try:
+        pix = np.array(detector.pixel.array, dtype=float)
+    except Exception:  # noqa: BLE001  (not initialised yet)
+        pix = np.zeros((geo.row, geo.col))
+    try:
+        sig = np.array(detector.signal.array, dtype=float)
+    except Exception:  # noqa: BLE001
+        sig = np.zeros((geo.row, geo.col))
+    mems = getattr(detector, "_c07_mems", None)
+    if mems is None:
+        mems = {}
+        detector._c07_mems = mems
+    mem = mems.get(int(ident), 0)
+    mems[int(ident)] = mem + 1
+    total = 0
+    for item in str(slots).split(","):
+        if not item:
+            continue
+        name, slot = item.split(":")
+        # "T": not an argument of this model but a setting of the detector (swept with a 'detector.*' key)
+        value = detector.environment.temperature if name == "T" else got[name]
+        code, t = encode([value])
+        total += t
+        pix[:, int(slot)] = float(code)
+        sig[:, int(slot)] = float(mem)
+    detector.pixel.array = pix
+    detector.signal.array = sig
+    try:
+        detector.photon.array = pix.copy()
+    except Exception:  # noqa: BLE001
+        pass
     if sleep_scale:
         if slow_sum is not None:
             s = sleep_scale if total == int(slow_sum) else 0.0
